@@ -17,6 +17,7 @@ struct Rec {
 	ncalls: usize,
 	fail_watch: Vec<String>,
 	fail_unwatch: Vec<String>,
+	fail_with_path: bool,
 	// (call index, change, position of the change in the case) performed from inside that watch/unwatch call
 	inject: Vec<(usize, Value, usize)>,
 	config: Option<Arc<Config>>,
@@ -93,7 +94,9 @@ impl notify::Watcher for RecWatcher {
 		let rec = matches!(mode, notify::RecursiveMode::Recursive);
 		r.calls.push(format!("watch({},{},{})", self.idx, name, if rec { "r" } else { "n" }));
 		if r.fail_watch.contains(&name) {
-			return Err(notify::Error::generic("injected watch failure"));
+			// some back-ends name the path in the error they return (inotify add_watch failures do), others do not
+			let e = notify::Error::generic("injected watch failure");
+			return Err(if r.fail_with_path { e.add_path(path.to_owned()) } else { e });
 		}
 		let reg = &mut r.instances[self.idx].1;
 		reg.retain(|(p, _)| p != path);
@@ -273,6 +276,7 @@ async fn run(case: Value, root: &Path) -> Value {
 		let mut r = sh.lock().unwrap();
 		r.fail_watch = strs(&case["fail_watch"]);
 		r.fail_unwatch = strs(&case["fail_unwatch"]);
+		r.fail_with_path = case["fail_with_path"].as_bool().unwrap_or(false);
 		r.inject = case["changes"].as_array().unwrap().iter().enumerate().filter(|(_, c)| c["inside_call"].is_u64()).map(|(k, c)| (c["inside_call"].as_u64().unwrap() as usize, c.clone(), k)).collect();
 	}
 	let sh2 = sh.clone();
